@@ -372,6 +372,7 @@ struct SSGen {
         if (on("sysprop")) perNode += "<xsl:if test=\"not(preceding::*) and not(ancestor::*)\">" + o("sysprop", vo("system-property('xsl:version')") + "," + vo("function-available('exsl:node-set')") + "," + vo("function-available('nofn:x')") + "," + vo("element-available('xsl:if')") + "," + vo("element-available('xsl:nope')")) + "</xsl:if>";
         if (on("param")) { perNode += "<xsl:if test=\"not(ancestor::*)\">" + o("param", vo("$P1") + "|" + vo("$P2 + 1") + "|" + vo("string-length($P1)")) + "</xsl:if>"; }
         if (on("extfn")) perNode += "<xsl:if test=\"function-available('ext:sq')\">" + o("extfn", vo("ext:sq(@v)") + "," + vo("ext:sq(count(*))")) + "</xsl:if>";
+        if (on("paramuse")) rootBody += "<o f=\"param-node\" n=\"/\">" + vo("count($N)") + "," + vo("name($N)") + "," + vo("string-length($N)") + "," + vo("translate(normalize-space($N), ' ', '_')") + "," + vo("count($N//text())") + "</o>";
         if (on("paramuse")) perNode += o("paramuse", vo("concat($P1, '/', @k)") + "|" + vo("$P2 * 2") + "|" + vo("boolean($P1)"));
         // a lazily evaluated global variable whose body aborts the transformation when the parameter P1 is 'abort'
         if (on("gate")) perNode += "<xsl:if test=\"count(preceding::*) mod 3 = 1\">" + o("gate", vo("$GATE")) + "</xsl:if>";
@@ -511,7 +512,7 @@ struct SSGen {
             out.resources["inc1.xsl"] = "<?xml version=\"1.0\"?><xsl:stylesheet version=\"1.0\" xmlns:xsl=\"http://www.w3.org/1999/XSL/Transform\"><xsl:template name=\"incT\"><xsl:param name=\"x\"/>inc[<xsl:value-of select=\"$x\"/>]</xsl:template></xsl:stylesheet>";
         }
         if (c.stripSpace) s += c.stripNames.empty() ? std::string("<xsl:strip-space elements=\"*\"/><xsl:preserve-space elements=\"p item\"/>\n") : "<xsl:strip-space elements=\"" + c.stripNames + "\"/>\n";
-        if (c.useParam || c.on.count("param") || c.on.count("paramuse") || c.on.count("gate") || c.on.count("num-gate") || c.on.count("sort-gate")) s += "<xsl:param name=\"P1\" select=\"'dflt'\"/><xsl:param name=\"P2\" select=\"40\"/>\n";
+        if (c.useParam || c.on.count("param") || c.on.count("paramuse") || c.on.count("gate") || c.on.count("num-gate") || c.on.count("sort-gate")) s += "<xsl:param name=\"P1\" select=\"'dflt'\"/><xsl:param name=\"P2\" select=\"40\"/><xsl:param name=\"N\" select=\"/..\"/>\n";
         s += "<xsl:variable name=\"G1\" select=\"count(//*)\"/><xsl:variable name=\"GP\" select=\"concat(position(), '/', last())\"/>\n";
         if (c.on.count("gate") || c.on.count("num-gate")) s += "<xsl:variable name=\"GATE\"><xsl:if test=\"$P1 = 'abort'\"><xsl:message terminate=\"yes\">gate closed</xsl:message></xsl:if><xsl:if test=\"$P1 = 'badkey'\"><xsl:value-of select=\"count(key('nosuchkey', 1))\"/></xsl:if>open</xsl:variable>\n";
         if (c.on.count("lazyvar")) s += "<xsl:variable name=\"LAZY1\" select=\"sum(//@v[. &gt; 0])\"/><xsl:variable name=\"LAZY2\" select=\"//*[@k][position() &lt; 4]\"/>\n";
